@@ -245,6 +245,9 @@ Qed.
 
 (* ---------- symbols that are neither structure nor outside the model ---------- *)
 
+(* a run-time oracle for the sources that have no "~!" block *)
+Definition ct0 : bytes -> res (option bytes) := fun _ => Unm.
+
 (* symbols that are outside the model, or that parse_comptime takes out of the symbol list *)
 Definition bad_symbol (s : string) : bool := mem s ["~"; "~!"; "!="] || unmodelled_symbol s.
 
@@ -329,6 +332,7 @@ Qed.
 
 Section Values.
   Variable fl2 : Z -> Z.
+  Variable ct : bytes -> res (option bytes).
 
   Ltac pfx_cases H := destruct H as [->| ->].
 
@@ -669,6 +673,7 @@ Qed.
 
 Section PnNames.
   Variable fl2 : Z -> Z.
+  Variable ct : bytes -> res (option bytes).
   Variable asm : list string -> res bytes.
   Variable pn : string -> list string -> res (nat * bytes).
   Variable macs : macros.
@@ -731,6 +736,7 @@ Definition try_name (n : string) : Prop := n = "TRY" \/ n = "OP_TRY".
 
 Section Spells.
   Variable fl2 : Z -> Z.
+  Variable ct : bytes -> res (option bytes).
 
   (* [stmt c nx is ss]: in context c, followed by the symbol nx (None: by the end of the source), the
      symbols ss are ONE statement that assembles to the instructions is (one instruction, except
@@ -1002,6 +1008,7 @@ Ltac wfs :=
 
 Section Invariants.
   Variable fl2 : Z -> Z.
+  Variable ct : bytes -> res (option bytes).
 
   Local Ltac leafp :=
     first [ eapply spell_name_leaf; eassumption
@@ -1641,10 +1648,10 @@ Proof.
 Qed.
 
 (* parse_comptime is the identity on symbols without "~", "~!", "!=" *)
-Lemma comptime_id : forall asm syms, existsb bad_symbol syms = false ->
-  forall n m, (List.length syms <= n)%nat -> comptime asm n m syms = Ok (m, syms).
+Lemma comptime_id : forall ct asm syms, existsb bad_symbol syms = false ->
+  forall n m, (List.length syms <= n)%nat -> comptime ct asm n m syms = Ok (m, syms).
 Proof.
-  intros asm. induction syms as [|s syms IH]; intros B n m L; [destruct n; reflexivity|].
+  intros ct asm. induction syms as [|s syms IH]; intros B n m L; [destruct n; reflexivity|].
   cbn [existsb] in B. apply orb_false_elim in B as [B1 B2].
   destruct (bad_symbol_spec s B1) as (E1 & E2 & E3 & _).
   cbn [List.length] in L. destruct n as [|n']; [lia|].
@@ -1660,11 +1667,12 @@ Qed.
 
 Section Main.
   Variable fl2 : Z -> Z.
+  Variable ct : bytes -> res (option bytes).
   Variable mtab : macros.
-  Notation PN := (fun f => pn_at fl2 f mtab).
-  Definition ASM (f : nat) (syms : list string) : res bytes := code_of (asm_fuel fl2 f mtab syms).
+  Notation PN := (fun f => pn_at fl2 ct f mtab).
+  Definition ASM (f : nat) (syms : list string) : res bytes := code_of (asm_fuel fl2 ct f mtab syms).
   Definition COMPILE (f : nat) (text : string) : res bytes :=
-    rbind (get_symbols text) (fun syms => code_of (asm_fuel fl2 f [] syms)).
+    rbind (get_symbols text) (fun syms => code_of (asm_fuel fl2 ct f [] syms)).
 
   Lemma PN_S : forall f, PN (S f) = parse_next fl2 (ASM f) (PN f) mtab (COMPILE f).
   Proof. reflexivity. Qed.
@@ -2313,43 +2321,43 @@ End Main.
 (* Main theorem: every spelling of a well-formed program assembles to its encoding          *)
 (* ====================================================================================== *)
 
-Lemma asm_fuel_free : forall fl2 f m syms, existsb bad_symbol syms = false ->
-  asm_fuel fl2 (Datatypes.S f) m syms =
-  rbind (asm_loop (pn_at fl2 f m) (List.length syms) syms) (fun code => Ok (m, code)).
+Lemma asm_fuel_free : forall fl2 ct f m syms, existsb bad_symbol syms = false ->
+  asm_fuel fl2 ct (Datatypes.S f) m syms =
+  rbind (asm_loop (pn_at fl2 ct f m) (List.length syms) syms) (fun code => Ok (m, code)).
 Proof.
-  intros fl2 f m syms B. cbn [asm_fuel]. rewrite comptime_id by (try exact B; apply le_n). reflexivity.
+  intros fl2 ct f m syms B. cbn [asm_fuel]. rewrite comptime_id by (try exact B; apply le_n). reflexivity.
 Qed.
 
 (* the loop of assemble on a spelling, whatever the macro table and with any sufficient fuel *)
-Lemma spells_loop : forall fl2 p syms, spells fl2 p syms -> wf_prog p = true ->
+Lemma spells_loop : forall fl2 ct p syms, spells fl2 p syms -> wf_prog p = true ->
   forall m f n, (List.length syms <= f)%nat -> (List.length syms <= n)%nat ->
-  asm_loop (pn_at fl2 f m) n syms = Ok (encode p).
+  asm_loop (pn_at fl2 ct f m) n syms = Ok (encode p).
 Proof.
-  intros fl2 p syms S W m f n Lf Ln.
-  pose proof (proj2 (proj2 (spells_correct fl2 m)) _ _ _ _ S W f [] Lf eq_refl) as R.
+  intros fl2 ct p syms S W m f n Lf Ln.
+  pose proof (proj2 (proj2 (spells_correct fl2 ct m)) _ _ _ _ S W f [] Lf eq_refl) as R.
   rewrite app_nil_r in R.
   apply (asm_loop_run _ Top _ _ _ R); [discriminate|exact Ln].
 Qed.
 
-Lemma asm_fuel_spells : forall fl2 p syms, spells fl2 p syms -> wf_prog p = true ->
-  forall m f, (List.length syms <= f)%nat -> asm_fuel fl2 (Datatypes.S f) m syms = Ok (m, encode p).
+Lemma asm_fuel_spells : forall fl2 ct p syms, spells fl2 p syms -> wf_prog p = true ->
+  forall m f, (List.length syms <= f)%nat -> asm_fuel fl2 ct (Datatypes.S f) m syms = Ok (m, encode p).
 Proof.
-  intros fl2 p syms S W m f L. destruct (good_seq fl2 _ _ _ _ S W) as (_ & _ & U & _).
-  rewrite asm_fuel_free by exact U. rewrite (spells_loop fl2 p syms S W m f _ L (le_n _)). reflexivity.
+  intros fl2 ct p syms S W m f L. destruct (good_seq fl2 _ _ _ _ S W) as (_ & _ & U & _).
+  rewrite asm_fuel_free by exact U. rewrite (spells_loop fl2 ct p syms S W m f _ L (le_n _)). reflexivity.
 Qed.
 
-Theorem assemble_r_spells : forall fl2 p syms,
-  spells fl2 p syms -> wf_prog p = true -> assemble_r fl2 syms = Ok (encode p).
+Theorem assemble_r_spells : forall fl2 ct p syms,
+  spells fl2 p syms -> wf_prog p = true -> assemble_r fl2 ct syms = Ok (encode p).
 Proof.
-  intros fl2 p syms S W. unfold assemble_r.
+  intros fl2 ct p syms S W. unfold assemble_r.
   destruct (good_seq fl2 _ _ _ _ S W) as (_ & _ & U & _). rewrite (bad_unmodelled syms U).
   replace (2 * List.length syms + 2)%nat with (Datatypes.S (2 * List.length syms + 1)) by lia.
-  rewrite (asm_fuel_spells fl2 p syms S W) by lia. reflexivity.
+  rewrite (asm_fuel_spells fl2 ct p syms S W) by lia. reflexivity.
 Qed.
 
-Theorem assemble_spells : forall fl2 p syms,
-  spells fl2 p syms -> wf_prog p = true -> assemble fl2 syms = Some (encode p).
-Proof. intros fl2 p syms S W. unfold assemble. rewrite (assemble_r_spells fl2 p syms S W). reflexivity. Qed.
+Theorem assemble_spells : forall fl2 ct p syms,
+  spells fl2 p syms -> wf_prog p = true -> assemble fl2 ct syms = Some (encode p).
+Proof. intros fl2 ct p syms S W. unfold assemble. rewrite (assemble_r_spells fl2 ct p syms S W). reflexivity. Qed.
 
 
 (* ====================================================================================== *)
@@ -2416,6 +2424,7 @@ Proof. destruct c; reflexivity. Qed.
 
 Section Listing.
   Variable fl2 : Z -> Z.
+  Variable ct : bytes -> res (option bytes).
   Hypothesis F : fl2_small fl2.
 
   Definition nxok (nx : option string) : Prop := nx <> Some "ELSE" /\ nx <> Some "EXCEPT".
@@ -2556,13 +2565,13 @@ Section Listing.
 
   (* assemble generalises the reader of the decompiler's listing (Asm.parse_listing) *)
   Theorem assemble_listing : forall p ind, wf_prog p = true -> forallb (ldef_ok false) p = true ->
-    assemble fl2 (tokens_of (print fl2 ind p)) = Some (encode p).
+    assemble fl2 ct (tokens_of (print fl2 ind p)) = Some (encode p).
   Proof.
     intros p ind W D. rewrite tokens_print. apply assemble_spells; [apply listing_spells; assumption|exact W].
   Qed.
 
   Corollary assemble_parse_listing : forall p ind, wf_prog p = true -> forallb (ldef_ok false) p = true ->
-    assemble fl2 (tokens_of (print fl2 ind p)) =
+    assemble fl2 ct (tokens_of (print fl2 ind p)) =
     option_map encode (parse_listing fl2 (tokens_of (print fl2 ind p))).
   Proof.
     intros p ind W D. rewrite assemble_listing, listing_roundtrip by assumption. reflexivity.
@@ -2571,7 +2580,7 @@ Section Listing.
   (* on what the decompiler lists for valid byte code *)
   Corollary assemble_decompile : forall b ls, decompile fl2 b = Some ls ->
     (forall p, decode b = Some p -> forallb (ldef_ok false) p = true) ->
-    assemble fl2 (tokens_of ls) = Some b.
+    assemble fl2 ct (tokens_of ls) = Some b.
   Proof.
     intros b ls H D. destruct (decompile_sound fl2 b ls H) as (p & -> & E & W & _).
     rewrite assemble_listing; [congruence|exact W|]. apply D. rewrite <- E. apply decode_encode. exact W.
@@ -2598,8 +2607,9 @@ Qed.
 
 Section Rejections.
   Variable fl2 : Z -> Z.
-  Notation PN := (fun f => pn_at fl2 f []).
-  Lemma PN0_S : forall f, PN (S f) = parse_next fl2 (ASM fl2 [] f) (PN f) [] (COMPILE fl2 f).
+  Variable ct : bytes -> res (option bytes).
+  Notation PN := (fun f => pn_at fl2 ct f []).
+  Lemma PN0_S : forall f, PN (S f) = parse_next fl2 (ASM fl2 ct [] f) (PN f) [] (COMPILE fl2 ct f).
   Proof. reflexivity. Qed.
 
   (* the general form: a prefix that is a spelling, then symbols on which parse_next raises *)
@@ -2607,7 +2617,7 @@ Section Rejections.
     seq fl2 Top nx p sp -> wf_prog p = true -> hd_error rest = nx ->
     existsb bad_symbol rest = false ->
     (forall f n', asm_loop (PN (S f)) (S n') rest = Err) ->
-    assemble_r fl2 (sp ++ rest) = Err.
+    assemble_r fl2 ct (sp ++ rest) = Err.
   Proof.
     intros nx p sp rest S W Hr U E. unfold assemble_r.
     destruct (good_seq fl2 _ _ _ _ S W) as (_ & _ & U1 & _).
@@ -2615,7 +2625,7 @@ Section Rejections.
     rewrite (bad_unmodelled _ UU).
     replace (2 * List.length (sp ++ rest) + 2)%nat with (Datatypes.S (2 * List.length (sp ++ rest) + 1)) by lia.
     rewrite asm_fuel_free by exact UU.
-    pose proof (proj2 (proj2 (spells_correct fl2 [])) _ _ _ _ S W (2 * List.length (sp ++ rest) + 1)%nat rest
+    pose proof (proj2 (proj2 (spells_correct fl2 ct [])) _ _ _ _ S W (2 * List.length (sp ++ rest) + 1)%nat rest
                   ltac:(rewrite app_length; lia) Hr) as R.
     rewrite (asm_loop_run_gen _ Top _ _ _ _ R ltac:(discriminate) _ Err (le_n _)); [reflexivity|].
     intros n' L. replace (2 * List.length (sp ++ rest) + 1)%nat with (Datatypes.S (2 * List.length (sp ++ rest))) by lia.
@@ -2635,7 +2645,7 @@ Section Rejections.
   Theorem reject_operand_missing : forall p sp o n,
     seq fl2 Top (Some n) p sp -> wf_prog p = true ->
     spell_name Top o n -> simple_op o = true -> shape_of o <> ShNone ->
-    assemble_r fl2 (sp ++ [n]) = Err.
+    assemble_r fl2 ct (sp ++ [n]) = Err.
   Proof.
     intros p sp o n S W N SO SH. apply (reject_after (Some n) p sp [n] S W eq_refl).
     - cbn [existsb]. destruct (leafb_spec n (spell_name_leaf Top o n N)) as (U & _). rewrite U. reflexivity.
@@ -2646,7 +2656,7 @@ Section Rejections.
 
   Theorem reject_operand_missing_nop : forall p sp code,
     seq fl2 Top (Some (nop_name code)) p sp -> wf_prog p = true -> (n_opcodes <= code < 256)%nat ->
-    assemble_r fl2 (sp ++ [nop_name code]) = Err.
+    assemble_r fl2 ct (sp ++ [nop_name code]) = Err.
   Proof.
     intros p sp code S W R. apply (reject_after _ p sp [nop_name code] S W eq_refl).
     - cbn [existsb]. destruct (leafb_spec _ (nop_name_leaf code R)) as (U & _). rewrite U. reflexivity.
@@ -2657,7 +2667,7 @@ Section Rejections.
 
   Theorem reject_operand_missing_push : forall p sp n,
     seq fl2 Top (Some n) p sp -> wf_prog p = true -> push_name n ->
-    assemble_r fl2 (sp ++ [n]) = Err.
+    assemble_r fl2 ct (sp ++ [n]) = Err.
   Proof.
     intros p sp n S W N. apply (reject_after (Some n) p sp [n] S W eq_refl).
     - destruct N as [->| ->]; reflexivity.
@@ -2669,7 +2679,7 @@ Section Rejections.
     seq fl2 Top (Some n) p sp -> wf_prog p = true -> spell_name Top o n ->
     shape_of o = ShSwap \/ shape_of o = ShMultisig \/ shape_of o = ShWriteCache ->
     bad_symbol v = false ->
-    assemble_r fl2 (sp ++ [n; v]) = Err.
+    assemble_r fl2 ct (sp ++ [n; v]) = Err.
   Proof.
     intros p sp o n v S W N SH U. apply (reject_after (Some n) p sp [n; v] S W eq_refl).
     - cbn [existsb]. destruct (leafb_spec n (spell_name_leaf Top o n N)) as (U' & _). rewrite U', U. reflexivity.
@@ -2719,7 +2729,7 @@ Section Rejections.
   Theorem reject_bad_byte_operand : forall p sp o n v rest,
     seq fl2 Top (Some n) p sp -> wf_prog p = true -> spell_name Top o n -> is_sh1 (shape_of o) = true ->
     val_byte fl2 v = Err -> existsb bad_symbol (v :: rest) = false ->
-    assemble_r fl2 (sp ++ n :: v :: rest) = Err.
+    assemble_r fl2 ct (sp ++ n :: v :: rest) = Err.
   Proof.
     intros p sp o n v rest S W N SH E U. apply (reject_after (Some n) p sp (n :: v :: rest) S W eq_refl).
     - cbn [existsb] in *. destruct (leafb_spec n (spell_name_leaf Top o n N)) as (U' & _). rewrite U'. exact U.
@@ -2735,7 +2745,7 @@ Section Rejections.
     seq fl2 Top (Some n) p sp -> wf_prog p = true -> spell_name Top O_SWAP n ->
     val_index a = Err \/ (exists va, val_index a = Ok va /\ val_index b = Err) ->
     existsb bad_symbol (a :: b :: rest) = false ->
-    assemble_r fl2 (sp ++ n :: a :: b :: rest) = Err.
+    assemble_r fl2 ct (sp ++ n :: a :: b :: rest) = Err.
   Proof.
     intros p sp n a b rest S W N E U. apply (reject_after (Some n) p sp (n :: a :: b :: rest) S W eq_refl).
     - cbn [existsb] in *. destruct (leafb_spec n (spell_name_leaf Top _ n N)) as (U' & _). rewrite U'. exact U.
@@ -2766,7 +2776,7 @@ Section Rejections.
     seq fl2 Top (Some n) p sp -> wf_prog p = true -> spell_name Top O_PUSH1 n ->
     sp_var1 fl2 v s -> oplike s = false -> check_push_size (Some a) v = Err ->
     existsb bad_symbol (a :: rest) = false ->
-    assemble_r fl2 (sp ++ n :: a :: s :: rest) = Err.
+    assemble_r fl2 ct (sp ++ n :: a :: s :: rest) = Err.
   Proof.
     intros p sp n a v s rest S W N V O E U.
     apply (reject_after (Some n) p sp (n :: a :: s :: rest) S W eq_refl).
@@ -2784,7 +2794,7 @@ Section Rejections.
     seq fl2 Top (Some n) p sp -> wf_prog p = true -> spell_name Top O_PUSH2 n ->
     sp_push2 fl2 v s -> oplike s = false -> check_push_size (Some a) v = Err ->
     existsb bad_symbol (a :: rest) = false ->
-    assemble_r fl2 (sp ++ n :: a :: s :: rest) = Err.
+    assemble_r fl2 ct (sp ++ n :: a :: s :: rest) = Err.
   Proof.
     intros p sp n a v s rest S W N V O E U.
     apply (reject_after (Some n) p sp (n :: a :: s :: rest) S W eq_refl).
@@ -2822,7 +2832,7 @@ Section Rejections.
   Theorem reject_unknown_name : forall nx p sp n rest,
     seq fl2 Top nx p sp -> wf_prog p = true -> nx = Some n -> unknown_name n ->
     existsb bad_symbol (n :: rest) = false ->
-    assemble_r fl2 (sp ++ n :: rest) = Err.
+    assemble_r fl2 ct (sp ++ n :: rest) = Err.
   Proof.
     intros nx p sp n rest S W -> K U. apply (reject_after _ p sp (n :: rest) S W eq_refl U).
     intros f n'. apply asm_loop_err. rewrite PN0_S. apply pn_unknown. exact K.
@@ -2837,7 +2847,7 @@ Section Rejections.
   (* 4a. a closing brace that closes nothing *)
   Corollary reject_extra_close : forall p sp rest,
     seq fl2 Top (Some "}") p sp -> wf_prog p = true -> existsb bad_symbol rest = false ->
-    assemble_r fl2 (sp ++ "}" :: rest) = Err.
+    assemble_r fl2 ct (sp ++ "}" :: rest) = Err.
   Proof.
     intros p sp rest S W U. apply (reject_unknown_name _ p sp "}" rest S W eq_refl); [|exact U].
     repeat split; reflexivity.
@@ -2856,7 +2866,7 @@ Section Rejections.
     seq fl2 Top (Some n) p sp -> wf_prog p = true ->
     spell_name Top O_IF n \/ spell_name Top O_LOOP n \/ try_name n ->
     mem "}" rest = false -> existsb bad_symbol rest = false ->
-    assemble_r fl2 (sp ++ n :: "{" :: rest) = Err.
+    assemble_r fl2 ct (sp ++ n :: "{" :: rest) = Err.
   Proof.
     intros p sp n rest S W N M U. apply (reject_after (Some n) p sp (n :: "{" :: rest) S W eq_refl).
     - cbn [existsb]. rewrite U.
@@ -2875,7 +2885,7 @@ Section Rejections.
   Theorem reject_unclosed_def : forall p sp n h hs rest,
     seq fl2 Top (Some n) p sp -> wf_prog p = true -> spell_name Top O_DEF n -> sp_handle h hs ->
     mem "}" rest = false -> existsb bad_symbol rest = false ->
-    assemble_r fl2 (sp ++ n :: hs :: "{" :: rest) = Err.
+    assemble_r fl2 ct (sp ++ n :: hs :: "{" :: rest) = Err.
   Proof.
     intros p sp n h hs rest S W N Hh M U.
     apply (reject_after (Some n) p sp (n :: hs :: "{" :: rest) S W eq_refl).
@@ -2990,7 +3000,7 @@ Qed.
 (* with the same outcome (see also the self-tests at the end of model/Assembler.v)           *)
 (* ====================================================================================== *)
 
-Definition asm (syms : list string) : res bytes := assemble_r fl2_exact syms.
+Definition asm (syms : list string) : res bytes := assemble_r fl2_exact ct0 syms.
 Definition enc (p : list instr) : res bytes := Ok (encode p).
 
 (* A1, A2 (oddity O1) -- FIXED in the implementation by _check_push_size.  Before the fix the size
@@ -3068,7 +3078,7 @@ Proof. split; vm_compute; reflexivity. Qed.
 
 Theorem assemble_listing_needs_ldef_ok :
   exists p, wf_prog p = true /\ decode (encode p) = Some p /\
-            assemble fl2_exact (tokens_of (print fl2_exact 0 p)) = None /\
+            assemble fl2_exact ct0 (tokens_of (print fl2_exact 0 p)) = None /\
             parse_listing fl2_exact (tokens_of (print fl2_exact 0 p)) = Some p.
 Proof. exists [IDef x00 [IDef x01 [IOp0 O_TRUE]]]. repeat split; vm_compute; reflexivity. Qed.
 
@@ -3126,7 +3136,7 @@ Proof.
       apply st_loadvar. reflexivity.
 Qed.
 
-Example example_assembles : assemble fl2_exact example_syms = Some (encode example_prog).
+Example example_assembles : assemble fl2_exact ct0 example_syms = Some (encode example_prog).
 Proof. apply assemble_spells; [apply example_spells|reflexivity]. Qed.
 
 (* ====================================================================================== *)
@@ -3243,23 +3253,24 @@ Fixpoint table_of (ds : list def3) (m : macros) : macros :=
 
 Section MacroTheorems.
   Variable fl2 : Z -> Z.
+  Variable ct : bytes -> res (option bytes).
   Variable asm : macros -> list string -> res (macros * bytes).
 
   Lemma comptime_pass : forall s1, existsb bad_symbol s1 = false -> forall n m rest,
-    comptime asm (List.length s1 + n) m (s1 ++ rest) =
-    rbind (comptime asm n m rest) (fun '(m', new) => Ok (m', s1 ++ new)).
+    comptime ct asm (List.length s1 + n) m (s1 ++ rest) =
+    rbind (comptime ct asm n m rest) (fun '(m', new) => Ok (m', s1 ++ new)).
   Proof.
     induction s1 as [|s s1 IH]; intros B n m rest.
-    - cbn [List.length plus app]. destruct (comptime asm n m rest) as [[m' new]| |]; reflexivity.
+    - cbn [List.length plus app]. destruct (comptime ct asm n m rest) as [[m' new]| |]; reflexivity.
     - cbn [existsb] in B. apply orb_false_elim in B as [B1 B2].
       destruct (bad_symbol_spec s B1) as (E1 & E2 & E3 & _).
       cbn [List.length plus app comptime]. rewrite E1, E2, E3. cbn [orb]. rewrite (IH B2 n m rest).
-      destruct (comptime asm n m rest) as [[m' new]| |]; reflexivity.
+      destruct (comptime ct asm n m rest) as [[m' new]| |]; reflexivity.
   Qed.
 
   Lemma comptime_def : forall n m name args tmpl rest, def_ok name args tmpl ->
-    comptime asm (Datatypes.S n) m (defsyms name args tmpl ++ rest) =
-    comptime asm n ((lower_s name, mac_of args tmpl) :: m) rest.
+    comptime ct asm (Datatypes.S n) m (defsyms name args tmpl ++ rest) =
+    comptime ct asm n ((lower_s name, mac_of args tmpl) :: m) rest.
   Proof.
     intros n m name args tmpl rest D.
     pose proof (define_macro_ok name args tmpl rest D) as E. unfold defsyms in *. cbn [app] in *.
@@ -3270,7 +3281,7 @@ Section MacroTheorems.
   Qed.
 
   Lemma comptime_defs : forall ds, Forall def3_ok ds -> forall n m rest,
-    comptime asm (List.length ds + n) m (defs_syms ds ++ rest) = comptime asm n (table_of ds m) rest.
+    comptime ct asm (List.length ds + n) m (defs_syms ds ++ rest) = comptime ct asm n (table_of ds m) rest.
   Proof.
     induction 1 as [|[[nm a] t] ds D F IH]; intros n m rest; [reflexivity|].
     unfold defs_syms. cbn [flat_map List.length plus table_of]. rewrite <- app_assoc.
@@ -3297,25 +3308,25 @@ Proof.
 Qed.
 
 (* (d) definitions do not emit code *)
-Theorem definitions_emit_no_code : forall fl2 ds, Forall def3_ok ds -> assemble_r fl2 (defs_syms ds) = Ok [].
+Theorem definitions_emit_no_code : forall fl2 ct ds, Forall def3_ok ds -> assemble_r fl2 ct (defs_syms ds) = Ok [].
 Proof.
-  intros fl2 ds F. unfold assemble_r. rewrite (defs_unmodelled ds F).
+  intros fl2 ct ds F. unfold assemble_r. rewrite (defs_unmodelled ds F).
   set (L := List.length (defs_syms ds)). pose proof (defs_length ds) as Ld. fold L in Ld.
-  assert (E : forall a, comptime a L [] (defs_syms ds) = Ok (table_of ds [], [])).
+  assert (E : forall a, comptime ct a L [] (defs_syms ds) = Ok (table_of ds [], [])).
   { intros a. replace L with (List.length ds + (L - List.length ds))%nat by lia.
-    rewrite <- (app_nil_r (defs_syms ds)). rewrite (comptime_defs _ ds F).
+    rewrite <- (app_nil_r (defs_syms ds)). rewrite (comptime_defs _ _ ds F).
     destruct (L - List.length ds)%nat; reflexivity. }
   replace (2 * L + 2)%nat with (Datatypes.S (2 * L + 1)) by lia. cbn [asm_fuel]. fold L.
   rewrite E. reflexivity.
 Qed.
 
 (* adding an unused definition anywhere at top level does not change the result *)
-Theorem unused_definition : forall fl2 p s1 s2 name args tmpl,
+Theorem unused_definition : forall fl2 ct p s1 s2 name args tmpl,
   spells fl2 p (s1 ++ s2) -> wf_prog p = true -> def_ok name args tmpl ->
-  assemble_r fl2 (s1 ++ defsyms name args tmpl ++ s2) = Ok (encode p) /\
-  assemble_r fl2 (s1 ++ s2) = Ok (encode p).
+  assemble_r fl2 ct (s1 ++ defsyms name args tmpl ++ s2) = Ok (encode p) /\
+  assemble_r fl2 ct (s1 ++ s2) = Ok (encode p).
 Proof.
-  intros fl2 p s1 s2 name args tmpl S W D. split; [|apply assemble_r_spells; assumption].
+  intros fl2 ct p s1 s2 name args tmpl S W D. split; [|apply assemble_r_spells; assumption].
   destruct (good_seq fl2 _ _ _ _ S W) as (_ & _ & U & _).
   rewrite existsb_app in U. apply orb_false_elim in U as [U1 U2].
   unfold assemble_r.
@@ -3325,13 +3336,13 @@ Proof.
   assert (EL : L = (List.length s1 + Datatypes.S (List.length args + List.length tmpl + 5 + List.length s2))%nat).
   { unfold L, defsyms. rewrite app_length. cbn [app List.length]. rewrite !app_length. cbn [List.length].
     rewrite !app_length. cbn [List.length]. lia. }
-  assert (E : forall a, comptime a L [] (s1 ++ defsyms name args tmpl ++ s2) =
+  assert (E : forall a, comptime ct a L [] (s1 ++ defsyms name args tmpl ++ s2) =
                         Ok ([(lower_s name, mac_of args tmpl)], s1 ++ s2)).
-  { intros a. rewrite EL. rewrite (comptime_pass _ s1 U1). rewrite (comptime_def _ _ _ name args tmpl s2 D).
+  { intros a. rewrite EL. rewrite (comptime_pass _ _ s1 U1). rewrite (comptime_def _ _ _ _ name args tmpl s2 D).
     rewrite comptime_id by (try exact U2; lia). reflexivity. }
   replace (2 * L + 2)%nat with (Datatypes.S (2 * L + 1)) by lia. cbn [asm_fuel]. fold L.
   rewrite E. cbn [rbind].
-  rewrite (spells_loop fl2 p (s1 ++ s2) S W) by (rewrite ?app_length in *; lia). reflexivity.
+  rewrite (spells_loop fl2 ct p (s1 ++ s2) S W) by (rewrite ?app_length in *; lia). reflexivity.
 Qed.
 
 Lemma skipn_block : forall (A : Type) (a b x : A) l post,
@@ -3345,12 +3356,12 @@ Proof.
 Qed.
 
 (* (c) a comptime block in an operand position is the value symbol x<hex of its code> *)
-Theorem comptime_block : forall fl2 pS S p pre post,
+Theorem comptime_block : forall fl2 ct pS S p pre post,
   spells fl2 pS S -> wf_prog pS = true ->
   spells fl2 p (pre ++ tok_x (encode pS) :: post) -> wf_prog p = true ->
-  assemble_r fl2 (pre ++ "~" :: "{" :: S ++ "}" :: post) = Ok (encode p).
+  assemble_r fl2 ct (pre ++ "~" :: "{" :: S ++ "}" :: post) = Ok (encode p).
 Proof.
-  intros fl2 pS S p pre post SS WS SP WP.
+  intros fl2 ct pS S p pre post SS WS SP WP.
   destruct (good_seq fl2 _ _ _ _ SS WS) as (BS & _ & US & _).
   destruct (good_seq fl2 _ _ _ _ SP WP) as (_ & _ & UP & _).
   rewrite existsb_app in UP. apply orb_false_elim in UP as [U1 U2].
@@ -3363,35 +3374,192 @@ Proof.
   set (L := List.length (pre ++ "~" :: "{" :: S ++ "}" :: post)).
   assert (EL : L = (List.length pre + Datatypes.S (List.length S + 2 + List.length post))%nat).
   { unfold L. rewrite app_length. cbn [List.length]. rewrite app_length. cbn [List.length]. lia. }
-  assert (E : comptime (asm_fuel fl2 (2 * L + 1)) L [] (pre ++ "~" :: "{" :: S ++ "}" :: post) =
+  assert (E : comptime ct (asm_fuel fl2 ct (2 * L + 1)) L [] (pre ++ "~" :: "{" :: S ++ "}" :: post) =
               Ok ([], pre ++ tok_x (encode pS) :: post)).
-  { rewrite EL at 2. rewrite (comptime_pass _ pre U1). cbn [comptime String.eqb Ascii.eqb Bool.eqb orb].
+  { rewrite EL at 2. rewrite (comptime_pass _ _ pre U1). cbn [comptime String.eqb Ascii.eqb Bool.eqb orb].
     assert (F : find_matching_brace ("~" :: "{" :: S ++ "}" :: post) "{" "}" = Some (2 + List.length S)%nat).
     { unfold find_matching_brace. cbn [fmb_go String.eqb Ascii.eqb Bool.eqb]. apply (fmb_balanced "{" "}" S post 2 BS). }
     rewrite F. cbn [of_opt rbind].
     replace (2 + List.length S - 2)%nat with (List.length S) by lia.
     change (skipn 2 ("~" :: "{" :: S ++ "}" :: post)) with (S ++ "}" :: post). rewrite firstn_app_len.
     replace (2 * L + 1)%nat with (Datatypes.S (2 * L)) by lia.
-    rewrite (asm_fuel_spells fl2 pS S SS WS) by lia. cbn [rbind].
+    rewrite (asm_fuel_spells fl2 ct pS S SS WS) by lia. cbn [rbind].
     rewrite skipn_block.
     rewrite comptime_id by (try exact U2; lia). reflexivity. }
   replace (2 * L + 2)%nat with (Datatypes.S (2 * L + 1)) by lia. cbn [asm_fuel]. fold L.
   rewrite E. cbn [rbind].
-  rewrite (spells_loop fl2 p _ SP WP) by (rewrite ?app_length in *; cbn [List.length] in *; lia). reflexivity.
+  rewrite (spells_loop fl2 ct p _ SP WP) by (rewrite ?app_length in *; cbn [List.length] in *; lia). reflexivity.
 Qed.
 
 (* e.g. push ~ { S } is the PUSH of the assembled bytes of S *)
-Corollary push_comptime : forall fl2 pS S i, spells fl2 pS S -> wf_prog pS = true ->
+Corollary push_comptime : forall fl2 ct pS S i, spells fl2 pS S -> wf_prog pS = true ->
   push_instr (encode pS) = Some i ->
-  assemble_r fl2 ("PUSH" :: "~" :: "{" :: S ++ ["}"]) = Ok (encode1 i).
+  assemble_r fl2 ct ("PUSH" :: "~" :: "{" :: S ++ ["}"]) = Ok (encode1 i).
 Proof.
-  intros fl2 pS S i SS WS P. rewrite <- encode_one.
-  apply (comptime_block fl2 pS S [i] ["PUSH"] [] SS WS).
+  intros fl2 ct pS S i SS WS P. rewrite <- encode_one.
+  apply (comptime_block fl2 ct pS S [i] ["PUSH"] [] SS WS).
   - apply (sq_cons fl2 Top None [i] ["PUSH"; tok_x (encode pS)] [] []); [|apply sq_nil].
     apply (st_pushp fl2 Top _ "PUSH" (encode pS) _ i); [left; reflexivity| |exact P].
     apply sp_x; [left; reflexivity|apply sp_hex_hex].
   - cbn [wf_prog forallb]. rewrite andb_true_r. apply (push_minimal _ _ P).
 Qed.
+
+(* ---------- "~! { ops }": run-time blocks, through the parameter ct ---------- *)
+
+Lemma comptime_run_core : forall fl2 ct pS S pre post F n,
+  spells fl2 pS S -> wf_prog pS = true -> existsb bad_symbol pre = false -> (List.length S <= F)%nat ->
+  comptime ct (asm_fuel fl2 ct (Datatypes.S F)) (List.length pre + Datatypes.S n) []
+    (pre ++ "~!" :: "{" :: S ++ "}" :: post) =
+  rbind (ct (encode pS)) (fun top =>
+  rbind (comptime ct (asm_fuel fl2 ct (Datatypes.S F)) n [] post) (fun '(m2, new) =>
+    Ok (m2, pre ++ match top with Some v => tok_x v :: new | None => new end))).
+Proof.
+  intros fl2 ct pS S pre post F n SS WS U1 LF.
+  destruct (good_seq fl2 _ _ _ _ SS WS) as (BS & _ & US & _).
+  rewrite (comptime_pass _ _ pre U1). cbn [comptime String.eqb Ascii.eqb Bool.eqb orb].
+  assert (Fm : find_matching_brace ("~!" :: "{" :: S ++ "}" :: post) "{" "}" = Some (2 + List.length S)%nat).
+  { unfold find_matching_brace. cbn [fmb_go String.eqb Ascii.eqb Bool.eqb]. apply (fmb_balanced "{" "}" S post 2 BS). }
+  rewrite Fm. cbn [of_opt rbind].
+  replace (2 + List.length S - 2)%nat with (List.length S) by lia.
+  change (skipn 2 ("~!" :: "{" :: S ++ "}" :: post)) with (S ++ "}" :: post). rewrite firstn_app_len.
+  rewrite (asm_fuel_spells fl2 ct pS S SS WS) by exact LF. cbn [rbind]. rewrite skipn_block.
+  destruct (ct (encode pS)) as [[v|]| |]; cbn [rbind]; try reflexivity;
+    destruct (comptime ct (asm_fuel fl2 ct (Datatypes.S F)) n [] post) as [[m2 new]| |]; reflexivity.
+Qed.
+
+Lemma run_block_unmodelled : forall fl2 pS S pre post, spells fl2 pS S -> wf_prog pS = true ->
+  existsb unmodelled_symbol pre = false -> existsb unmodelled_symbol post = false ->
+  existsb unmodelled_symbol (pre ++ "~!" :: "{" :: S ++ "}" :: post) = false.
+Proof.
+  intros fl2 pS S pre post SS WS U1 U2. destruct (good_seq fl2 _ _ _ _ SS WS) as (_ & _ & US & _).
+  rewrite existsb_app, U1. cbn [existsb]. rewrite existsb_app, (bad_unmodelled S US). cbn [existsb].
+  rewrite U2. reflexivity.
+Qed.
+
+Lemma run_block_length : forall (S pre post : list string),
+  List.length (pre ++ "~!" :: "{" :: S ++ "}" :: post) =
+  (List.length pre + Datatypes.S (List.length S + 2 + List.length post))%nat.
+Proof. intros. rewrite app_length. cbn [List.length]. rewrite app_length. cbn [List.length]. lia. Qed.
+
+(* (a) a run-time block in an operand position is the value symbol x<hex of the top stack item> *)
+Theorem comptime_run_block : forall fl2 ct pS S v p pre post,
+  spells fl2 pS S -> wf_prog pS = true -> ct (encode pS) = Ok (Some v) ->
+  spells fl2 p (pre ++ tok_x v :: post) -> wf_prog p = true ->
+  assemble_r fl2 ct (pre ++ "~!" :: "{" :: S ++ "}" :: post) = Ok (encode p).
+Proof.
+  intros fl2 ct pS S v p pre post SS WS C SP WP.
+  destruct (good_seq fl2 _ _ _ _ SP WP) as (_ & _ & UP & _).
+  rewrite existsb_app in UP. apply orb_false_elim in UP as [U1 U2].
+  cbn [existsb] in U2. apply orb_false_elim in U2 as [_ U2].
+  unfold assemble_r.
+  rewrite (run_block_unmodelled fl2 pS S pre post SS WS (bad_unmodelled pre U1) (bad_unmodelled post U2)).
+  set (L := List.length (pre ++ "~!" :: "{" :: S ++ "}" :: post)).
+  pose proof (run_block_length S pre post) as EL. fold L in EL.
+  assert (E : comptime ct (asm_fuel fl2 ct (2 * L + 1)) L [] (pre ++ "~!" :: "{" :: S ++ "}" :: post) =
+              Ok ([], pre ++ tok_x v :: post)).
+  { rewrite EL at 2. replace (2 * L + 1)%nat with (Datatypes.S (2 * L)) by lia.
+    rewrite (comptime_run_core fl2 ct pS S pre post _ _ SS WS U1) by lia. rewrite C. cbn [rbind].
+    rewrite comptime_id by (try exact U2; lia). reflexivity. }
+  replace (2 * L + 2)%nat with (Datatypes.S (2 * L + 1)) by lia. cbn [asm_fuel]. fold L.
+  rewrite E. cbn [rbind].
+  rewrite (spells_loop fl2 ct p _ SP WP) by (rewrite ?app_length in *; cbn [List.length] in *; lia). reflexivity.
+Qed.
+
+(* e.g. push ~! { S } is the PUSH of the top stack item *)
+Corollary push_comptime_run : forall fl2 ct pS S v i, spells fl2 pS S -> wf_prog pS = true ->
+  ct (encode pS) = Ok (Some v) -> push_instr v = Some i ->
+  assemble_r fl2 ct ("PUSH" :: "~!" :: "{" :: S ++ ["}"]) = Ok (encode1 i).
+Proof.
+  intros fl2 ct pS S v i SS WS C P. rewrite <- encode_one.
+  apply (comptime_run_block fl2 ct pS S v [i] ["PUSH"] [] SS WS C).
+  - apply (sq_cons fl2 Top None [i] ["PUSH"; tok_x v] [] []); [|apply sq_nil].
+    apply (st_pushp fl2 Top _ "PUSH" v _ i); [left; reflexivity| |exact P].
+    apply sp_x; [left; reflexivity|apply sp_hex_hex].
+  - cbn [wf_prog forallb]. rewrite andb_true_r. apply (push_minimal _ _ P).
+Qed.
+
+(* oddity C1: when the run leaves an empty stack the block contributes NO symbol (and no error) *)
+Theorem comptime_run_empty : forall fl2 ct pS S p pre post,
+  spells fl2 pS S -> wf_prog pS = true -> ct (encode pS) = Ok None ->
+  spells fl2 p (pre ++ post) -> wf_prog p = true ->
+  assemble_r fl2 ct (pre ++ "~!" :: "{" :: S ++ "}" :: post) = Ok (encode p).
+Proof.
+  intros fl2 ct pS S p pre post SS WS C SP WP.
+  destruct (good_seq fl2 _ _ _ _ SP WP) as (_ & _ & UP & _).
+  rewrite existsb_app in UP. apply orb_false_elim in UP as [U1 U2].
+  unfold assemble_r.
+  rewrite (run_block_unmodelled fl2 pS S pre post SS WS (bad_unmodelled pre U1) (bad_unmodelled post U2)).
+  set (L := List.length (pre ++ "~!" :: "{" :: S ++ "}" :: post)).
+  pose proof (run_block_length S pre post) as EL. fold L in EL.
+  assert (E : comptime ct (asm_fuel fl2 ct (2 * L + 1)) L [] (pre ++ "~!" :: "{" :: S ++ "}" :: post) =
+              Ok ([], pre ++ post)).
+  { rewrite EL at 2. replace (2 * L + 1)%nat with (Datatypes.S (2 * L)) by lia.
+    rewrite (comptime_run_core fl2 ct pS S pre post _ _ SS WS U1) by lia. rewrite C. cbn [rbind].
+    rewrite comptime_id by (try exact U2; lia). reflexivity. }
+  replace (2 * L + 2)%nat with (Datatypes.S (2 * L + 1)) by lia. cbn [asm_fuel]. fold L.
+  rewrite E. cbn [rbind].
+  rewrite (spells_loop fl2 ct p _ SP WP) by (rewrite ?app_length in *; lia). reflexivity.
+Qed.
+
+(* (b) when the run raises, the whole assembly raises, whatever follows the block *)
+Theorem comptime_run_error : forall fl2 ct pS S pre post,
+  spells fl2 pS S -> wf_prog pS = true -> ct (encode pS) = Err ->
+  existsb bad_symbol pre = false -> existsb unmodelled_symbol post = false ->
+  assemble_r fl2 ct (pre ++ "~!" :: "{" :: S ++ "}" :: post) = Err.
+Proof.
+  intros fl2 ct pS S pre post SS WS C U1 U2. unfold assemble_r.
+  rewrite (run_block_unmodelled fl2 pS S pre post SS WS (bad_unmodelled pre U1) U2).
+  set (L := List.length (pre ++ "~!" :: "{" :: S ++ "}" :: post)).
+  pose proof (run_block_length S pre post) as EL. fold L in EL.
+  assert (E : comptime ct (asm_fuel fl2 ct (2 * L + 1)) L [] (pre ++ "~!" :: "{" :: S ++ "}" :: post) = Err).
+  { rewrite EL at 2. replace (2 * L + 1)%nat with (Datatypes.S (2 * L)) by lia.
+    rewrite (comptime_run_core fl2 ct pS S pre post _ _ SS WS U1) by lia. rewrite C. reflexivity. }
+  replace (2 * L + 2)%nat with (Datatypes.S (2 * L + 1)) by lia. cbn [asm_fuel]. fold L.
+  rewrite E. reflexivity.
+Qed.
+
+(* any number of run-time blocks: [ctsrc w a]: w is the symbol list as written, a the list after
+   parse_comptime (each "~! { S }" replaced by x<hex of the top item of the run of S>) *)
+Section RunBlocks.
+  Variable fl2 : Z -> Z.
+  Variable ct : bytes -> res (option bytes).
+
+  Inductive ctsrc : list string -> list string -> Prop :=
+  | cs_plain : forall s, existsb bad_symbol s = false -> ctsrc s s
+  | cs_block : forall pre pS S v rest rest', existsb bad_symbol pre = false ->
+      spells fl2 pS S -> wf_prog pS = true -> ct (encode pS) = Ok (Some v) -> ctsrc rest rest' ->
+      ctsrc (pre ++ "~!" :: "{" :: S ++ "}" :: rest) (pre ++ tok_x v :: rest').
+
+  Lemma ctsrc_facts : forall w a, ctsrc w a ->
+    (List.length a <= List.length w)%nat /\ existsb unmodelled_symbol w = false /\
+    forall F n, (List.length w <= F)%nat -> (List.length w <= n)%nat ->
+    comptime ct (asm_fuel fl2 ct (Datatypes.S F)) n [] w = Ok ([], a).
+  Proof.
+    induction 1 as [s U|pre pS S v rest rest' U SS WS C R (IL & IU & IH)].
+    - split; [apply le_n|]. split; [apply bad_unmodelled; exact U|].
+      intros F n _ Ln. apply comptime_id; assumption.
+    - split; [|split].
+      + rewrite run_block_length, app_length. cbn [List.length]. lia.
+      + apply (run_block_unmodelled fl2 pS S pre rest SS WS (bad_unmodelled pre U) IU).
+      + intros F n LF Ln. rewrite run_block_length in LF, Ln.
+        replace n with (List.length pre + Datatypes.S (n - List.length pre - 1))%nat by lia.
+        rewrite (comptime_run_core fl2 ct pS S pre rest _ _ SS WS U) by lia. rewrite C. cbn [rbind].
+        rewrite IH by lia. reflexivity.
+  Qed.
+
+  (* what the statement loop does on the symbols after parse_comptime decides the result *)
+  Theorem comptime_run_rewrite : forall w a code, ctsrc w a ->
+    (forall m f n, (List.length a <= f)%nat -> (List.length a <= n)%nat ->
+                   asm_loop (pn_at fl2 ct f m) n a = Ok code) ->
+    assemble_r fl2 ct w = Ok code.
+  Proof.
+    intros w a code Cs Lp. destruct (ctsrc_facts w a Cs) as (La & U & E). unfold assemble_r. rewrite U.
+    pose proof (E (2 * List.length w)%nat (List.length w) ltac:(lia) (le_n _)) as E1.
+    replace (Datatypes.S (2 * List.length w)) with (2 * List.length w + 1)%nat in E1 by lia.
+    replace (2 * List.length w + 2)%nat with (Datatypes.S (2 * List.length w + 1)) by lia.
+    cbn [asm_fuel]. rewrite E1. cbn [rbind]. rewrite Lp by lia. reflexivity.
+  Qed.
+End RunBlocks.
 
 (* ---------- (b) macro expansion ---------- *)
 
@@ -3401,6 +3569,7 @@ Definition renx_ok (nx nx' : option string) : Prop :=
 
 Section Renx.
   Variable fl2 : Z -> Z.
+  Variable ct : bytes -> res (option bytes).
 
   Lemma iftail_renx : forall c nx i ts, iftail fl2 c nx i ts -> forall nx', renx_ok nx nx' -> iftail fl2 c nx' i ts.
   Proof.
@@ -3456,6 +3625,7 @@ Proof. intros k. vm_compute. reflexivity. Qed.
 
 Section MacroExpansion.
   Variable fl2 : Z -> Z.
+  Variable ct : bytes -> res (option bytes).
 
   (* a top-level source with invocations of the macros of the table M (second list), the same
      source with every invocation textually replaced by the instantiated template (third list),
@@ -3497,13 +3667,13 @@ Section MacroExpansion.
     get_symbols (join_spaces (instantiate mac vals)) = Ok (instantiate mac vals) ->
     spells fl2 pi (instantiate mac vals) -> wf_prog pi = true ->
     (List.length (instantiate mac vals) + 2 <= f)%nat ->
-    pn_at fl2 f M (String "!" nm) (invocation nm vals ++ msp) =
+    pn_at fl2 ct f M (String "!" nm) (invocation nm vals ++ msp) =
     Ok (List.length (invocation nm vals), encode pi).
   Proof.
     intros f M nm vals mac pi msp A Lk Ln Fv G S W Lf.
     destruct f as [|[|f'']]; [lia|lia|].
     destruct (bang_facts nm A) as (C1 & C2 & C3 & C4 & _).
-    rewrite (PN_S fl2 M). unfold parse_next. rewrite C1, C2, C3, C4.
+    rewrite (PN_S fl2 ct M). unfold parse_next. rewrite C1, C2, C3, C4.
     cbn [String.eqb Ascii.eqb Bool.eqb]. rewrite A.
     unfold invocation. cbn [app]. unfold invoke_macro. cbn [sdrop]. rewrite Lk.
     change (String.eqb "[" "[") with true. cbv iota.
@@ -3517,7 +3687,7 @@ Section MacroExpansion.
     change (skipn 2 (String "!" nm :: "[" :: (vals ++ ["]"]) ++ msp)) with ((vals ++ ["]"]) ++ msp).
     rewrite <- app_assoc. rewrite firstn_app_len. rewrite Ln, Nat.eqb_refl.
     unfold COMPILE. rewrite G. cbn [rbind].
-    rewrite (asm_fuel_spells fl2 pi _ S W) by lia. cbn [code_of rbind].
+    rewrite (asm_fuel_spells fl2 ct pi _ S W) by lia. cbn [code_of rbind].
     f_equal. f_equal. cbn [List.length]. rewrite app_length. cbn [List.length]. lia.
   Qed.
 
@@ -3525,7 +3695,7 @@ Section MacroExpansion.
   Lemma mseq_loop : forall B M p msrc esrc, mseq B M p msrc esrc -> wf_prog p = true ->
     existsb bad_symbol msrc = false /\
     forall f n, (List.length msrc <= f)%nat -> (B <= f)%nat -> (List.length msrc <= n)%nat ->
-    asm_loop (pn_at fl2 f M) n msrc = Ok (encode p).
+    asm_loop (pn_at fl2 ct f M) n msrc = Ok (encode p).
   Proof.
     induction 1 as [|is ss p msp esp S T IH|nm vals mac pi p msp esp A Lk Ln Fv G S LB T IH]; intros W.
     - split; [reflexivity|]. intros f n _ _ _. destruct n; reflexivity.
@@ -3534,7 +3704,7 @@ Section MacroExpansion.
       + destruct (good_stmt fl2 _ _ _ _ S W1) as (_ & _ & U1 & _). rewrite existsb_app, U1, U2. reflexivity.
       + intros f n Lf LB Lnn. rewrite app_length in Lf, Lnn.
         assert (Hh : hd_error msp = hd_or None msp) by (destruct msp; reflexivity).
-        destruct (proj1 (spells_correct fl2 M) _ _ _ _ S W1 f msp ltac:(lia) Hh) as (h & t & -> & _ & P).
+        destruct (proj1 (spells_correct fl2 ct M) _ _ _ _ S W1 f msp ltac:(lia) Hh) as (h & t & -> & _ & P).
         cbn [defpre] in P. cbn [List.length] in *. destruct n as [|n']; [lia|].
         cbn [app asm_loop]. cbn [app] in P. rewrite P. cbn [rbind]. rewrite skipn_stmt.
         rewrite (R2 f n') by lia. cbn [rbind]. unfold encode. rewrite flat_map_app. reflexivity.
@@ -3560,7 +3730,7 @@ Section MacroExpansion.
     exists h t, ss = h :: t /\ headb h = true.
   Proof.
     intros c nx is ss S W.
-    destruct (proj1 (spells_correct fl2 []) _ _ _ _ S W (List.length ss)
+    destruct (proj1 (spells_correct fl2 ct []) _ _ _ _ S W (List.length ss)
                 (match nx with Some t => [t] | None => [] end) (le_n _) ltac:(destruct nx; reflexivity))
       as (h & t & E & [Hh _] & _).
     eauto.
@@ -3613,8 +3783,8 @@ Section MacroExpansion.
   Theorem macro_expansion : forall name args tmpl p msrc esrc,
     def_ok name args tmpl ->
     mseq (List.length tmpl + 2) [(lower_s name, mac_of args tmpl)] p msrc esrc -> wf_prog p = true ->
-    assemble_r fl2 (defsyms name args tmpl ++ msrc) = Ok (encode p) /\
-    assemble_r fl2 esrc = Ok (encode p).
+    assemble_r fl2 ct (defsyms name args tmpl ++ msrc) = Ok (encode p) /\
+    assemble_r fl2 ct esrc = Ok (encode p).
   Proof.
     intros name args tmpl p msrc esrc D Mq W.
     destruct (mseq_loop _ _ _ _ _ Mq W) as [U R]. destruct (mseq_expanded _ _ _ _ _ Mq W) as (Sq & _).
@@ -3624,9 +3794,9 @@ Section MacroExpansion.
     assert (EL : L = (Datatypes.S (List.length args + List.length tmpl + 5 + List.length msrc))%nat).
     { unfold L, defsyms. cbn [app List.length]. rewrite !app_length. cbn [List.length].
       rewrite !app_length. cbn [List.length]. lia. }
-    assert (E : forall a, comptime a L [] (defsyms name args tmpl ++ msrc) =
+    assert (E : forall a, comptime ct a L [] (defsyms name args tmpl ++ msrc) =
                           Ok ([(lower_s name, mac_of args tmpl)], msrc)).
-    { intros a. rewrite EL. rewrite (comptime_def a _ _ name args tmpl msrc D).
+    { intros a. rewrite EL. rewrite (comptime_def _ a _ _ name args tmpl msrc D).
       rewrite comptime_id by (try exact U; lia). reflexivity. }
     replace (2 * L + 2)%nat with (Datatypes.S (2 * L + 1)) by lia. cbn [asm_fuel]. fold L.
     rewrite E. cbn [rbind]. rewrite R by lia. reflexivity.
@@ -3636,12 +3806,12 @@ End MacroExpansion.
 (* the relation is inhabited:  != m [ a ] { push a } !m [ d1 ] !m [ x0102 ] true
    (symbols as get_symbols gives them) against  push d1 push x0102 true *)
 Example macro_expansion_example :
-  assemble_r fl2_exact (defsyms "m" ["A"] ["PUSH"; "A"] ++ invocation "m" ["d1"] ++ invocation "m" ["x0102"] ++ ["TRUE"])
+  assemble_r fl2_exact ct0 (defsyms "m" ["A"] ["PUSH"; "A"] ++ invocation "m" ["d1"] ++ invocation "m" ["x0102"] ++ ["TRUE"])
     = Ok (encode [IOp1 O_PUSH0 x01; IVar1 O_PUSH1 [x01; x02]; IOp0 O_TRUE]) /\
-  assemble_r fl2_exact ["PUSH"; "d1"; "PUSH"; "x0102"; "TRUE"]
+  assemble_r fl2_exact ct0 ["PUSH"; "d1"; "PUSH"; "x0102"; "TRUE"]
     = Ok (encode [IOp1 O_PUSH0 x01; IVar1 O_PUSH1 [x01; x02]; IOp0 O_TRUE]).
 Proof.
-  apply (macro_expansion fl2_exact "m" ["A"] ["PUSH"; "A"]
+  apply (macro_expansion fl2_exact ct0 "m" ["A"] ["PUSH"; "A"]
            ([IOp1 O_PUSH0 x01] ++ [IVar1 O_PUSH1 [x01; x02]] ++ [IOp0 O_TRUE] ++ [])
            (invocation "m" ["d1"] ++ invocation "m" ["x0102"] ++ ["TRUE"] ++ [])
            (["PUSH"; "d1"] ++ ["PUSH"; "x0102"] ++ ["TRUE"] ++ [])).
@@ -3685,6 +3855,28 @@ Theorem macro_oddities :
   asm ["~"; "{"; "TRUE"; "}"] = Err.
 Proof. repeat split; vm_compute; reflexivity. Qed.
 
+(* run-time blocks on a small oracle (the four runs below were done on the real VM):
+   the empty script leaves an empty stack; 03 00 (push1 d0 x) leaves the empty item;
+   02 02 02 03 0e 02 (push d2 push d3 add_ints d2) leaves 05; 06 (pop0 on an empty stack) raises *)
+Definition ct_example (code : bytes) : res (option bytes) :=
+  if bytes_eqb code [] then Ok None
+  else if bytes_eqb code [x03; x00] then Ok (Some [])
+  else if bytes_eqb code [x02; x02; x02; x03; x0e; x02] then Ok (Some [x05])
+  else if bytes_eqb code [x06] then Err
+  else Unm.
+Example run_block_examples :
+  (* C1: an empty stack contributes no symbol: the operand of PUSH is the next symbol *)
+  assemble_r fl2_exact ct_example ["PUSH"; "~!"; "{"; "}"; "d5"] = enc [IOp1 O_PUSH0 x05] /\
+  (* an empty top item is the symbol x: 00 for a 1-byte operand (O6), an error for PUSH *)
+  assemble_r fl2_exact ct_example ["ADD_INTS"; "~!"; "{"; "PUSH1"; "d0"; "x"; "}"] = enc [IOp1 O_ADD_INTS x00] /\
+  assemble_r fl2_exact ct_example ["PUSH"; "~!"; "{"; "PUSH1"; "d0"; "x"; "}"] = Err /\
+  assemble_r fl2_exact ct_example ["PUSH"; "~!"; "{"; "PUSH"; "d2"; "PUSH"; "d3"; "ADD_INTS"; "d2"; "}"]
+    = enc [IOp1 O_PUSH0 x05] /\
+  assemble_r fl2_exact ct_example ["PUSH"; "~!"; "{"; "POP0"; "}"] = Err /\
+  (* "~" never asks the oracle *)
+  assemble_r fl2_exact (fun _ => Err) ["PUSH"; "~"; "{"; "TRUE"; "FALSE"; "}"] = enc [IVar1 O_PUSH1 [x01; x00]].
+Proof. repeat split; vm_compute; reflexivity. Qed.
+
 Print Assumptions assemble_spells.
 Print Assumptions assemble_r_spells.
 Print Assumptions assemble_listing.
@@ -3716,3 +3908,9 @@ Print Assumptions macro_expansion.
 Print Assumptions macro_expansion_example.
 Print Assumptions macro_oddities.
 Print Assumptions fixed_def_alias.
+Print Assumptions comptime_run_block.
+Print Assumptions push_comptime_run.
+Print Assumptions comptime_run_empty.
+Print Assumptions comptime_run_error.
+Print Assumptions run_block_examples.
+Print Assumptions comptime_run_rewrite.
